@@ -36,6 +36,31 @@ class Gen:
             self.by_dim.setdefault(tuple(u["dim"]), []).append(u)
 
     # ---- spellings
+    def readings(self, name):
+        """all readings of a spelling by the rule of C13: (unit singular name, prefix name or None); exact ones first"""
+        if not hasattr(self, "_by_name"):
+            self._by_name, self._by_sym = {}, {}
+            for x in self.U["units"]:
+                for k in {x["singular"], x["plural"]} if x["has_plural"] else {x["singular"]}:
+                    self._by_name.setdefault(k, []).append(x["singular"])
+                self._by_sym.setdefault(x["symbol"], []).append(x["singular"])
+        exact = [(n, None) for n in self._by_name.get(name, [])] + [(n, None) for n in self._by_sym.get(name, [])]
+        pref = []
+        for p in self.U["prefixes"]:
+            if name.startswith(p["name"]):
+                pref += [(n, p["name"]) for n in self._by_name.get(name[len(p["name"]):], [])]
+            if name.startswith(p["sym"]):
+                pref += [(n, p["name"]) for n in self._by_sym.get(name[len(p["sym"]):], [])]
+        return exact, pref
+
+    def reads_as(self, name, u, pre):
+        exact, pref = self.readings(name)
+        want = (u["singular"], pre["name"] if pre else None)
+        if exact:
+            return len(set(exact)) == 1 and exact[0] == want
+        # the same prefix can be listed twice (kilo): readings are compared as sets
+        return set(pref) == {want}
+
     def spelling(self, u):
         rng = self.rng
         for _ in range(8):
@@ -54,19 +79,10 @@ class Gen:
                 continue
             if not all(ch.isalnum() or ch in "_€$£¥μ" for ch in name) or name[0].isdigit():
                 continue
-            # the spelling must read as intended (unique reading): ask the real lookup and compare the multiple
-            try:
-                ru = self.R.units.lookup_unit(name)
-            except Exception:
-                continue
-            if ru is None:
-                continue
-            want = frac_of(u["multiple"]) * (frac_of(pre["multiplier"]) if pre else 1)
-            try:
-                got = Fraction(ru.multiple)
-            except Exception:
-                continue
-            if ru.singular_name != u["singular"] or abs(got - want) > abs(want) * Fraction(1, 10**12):
+            # the spelling must read as intended.  Decided by the property's own rule over the unit TABLE (never by asking the
+            # lookup under test): a spelling that is itself a registered name/symbol means that unit; otherwise it must have
+            # exactly one reading as name-prefix + unit name or symbol-prefix + unit symbol
+            if not self.reads_as(name, u, pre):
                 continue
             return name, pre
         return u["singular"], None
@@ -341,7 +357,62 @@ def run(ctx, which):
             return core.nums_agree(ra[1], ma[1], 1e-9)
         return False
     ctx.correspond("qexp", cases, agree=agree)
+    spelling_sweep(ctx, which, g)
     return g
+
+
+def spelling_sweep(ctx, which, g):
+    """every prefix x every unit, by name and by symbol: `1 <spelling>` has the unit's dimension (C03) and the magnitude
+    prefix factor x unit factor (C04).  Which spellings have a unique reading is decided from the unit TABLE by the rule of
+    C13 (Gen.reads_as), never by the lookup under test; only a handful of the ~20 000 spellings are affected by a change to
+    the lookup order, so the sweep is exhaustive in the thorough tier and a 5 000-spelling sample plus the short symbols in
+    the quick tier."""
+    R, T, rng = ctx.real, ctx.real.types, ctx.rng
+    combos = []
+    for u in g.U["units"]:
+        if frac_of(u["offset"]) != 0:
+            continue
+        for p in g.U["prefixes"]:
+            combos.append((p["sym"] + u["symbol"], u, p))
+            combos.append((p["name"] + u["singular"], u, p))
+            if u["has_plural"]:
+                combos.append((p["name"] + u["plural"], u, p))
+    if ctx.quick():
+        short = [c for c in combos if len(c[0]) <= 3 and not c[1]["cash"]]
+        combos = short + rng.sample(combos, min(len(combos), 5000))
+    done = set()
+    for name, u, p in combos:
+        if name in done or name in KEYWORDS or not all(ch.isalnum() or ch in "_€$£¥μ" for ch in name) or name[0].isdigit():
+            continue
+        done.add(name)
+        if not g.reads_as(name, u, p):
+            continue
+        text = "1 " + name
+        k, v = R.value(text)
+        ctx.count("spelling:" + name, bucket="spelling/" + ("symbol" if name == p["sym"] + u["symbol"] else "name"))
+        how = "execute(%r)" % text
+        if k != "ok" or not isinstance(v, T.Quantity):
+            if k == "ok" and not any(u["dim"]):
+                got_dim, mag = tuple(0 for _ in u["dim"]), v          # dimensionless units come back as plain numbers
+            else:
+                ctx.violation("spelling:" + name, text, "%s%s: a quantity" % (p["name"], u["singular"]), "%s %s" % (k, str(v)[:80]), how)
+                continue
+        else:
+            got_dim, mag = tuple(v.qv.v.xs), v.mag
+        if which == "C03":
+            if tuple(got_dim) != tuple(u["dim"]):
+                ctx.violation("spelling-dim:" + name, text, "dimension %s (%s%s)" % (tuple(u["dim"]), p["name"], u["singular"]),
+                              "dimension %s" % (got_dim,), how)
+            continue
+        want = frac_of(u["multiple"]) * frac_of(p["multiplier"])
+        try:
+            got = Fraction(mag)
+        except Exception:
+            got = None
+        exact = u["multiple"][2] != "float" and not isinstance(mag, float)
+        if got is None or tuple(got_dim) != tuple(u["dim"]) or (got != want if exact else abs(got - want) > abs(want) * Fraction(1, 10**9)):
+            ctx.violation("spelling-mag:" + name, text, "%s x %s = %s in base units" % (p["name"], u["singular"], want if exact else float(want)),
+                          "%r of dimension %s" % (mag, got_dim), how)
 
 
 def cancellation(t, nb, err):
